@@ -1264,6 +1264,7 @@ func runC16(args []string) error {
 		"jw":   g.jwCases(200*s, *big),
 		"ctx":  g.ctxCases(40 * s),
 		"cc":   g.ccCases(200 * s),
+		"tg":   g.tgCases(250 * s),
 		"dist": g.dist,
 		"keys": map[string]string{"error": hx(requestreply.ErrorMetadataKey), "has_error": hx(requestreply.HasErrorMetadataKey)},
 	}
